@@ -72,6 +72,7 @@ fn real_main() {
         "span-events" => span_ev::span_events(&args),
         "err-events" => span_ev::err_events(&args),
         "entry-events" => entry_ev::entry_events(&args),
+        "gen-damaged" => entry_ev::gen_damaged(&args),
         "depth-events" => depth_ev::depth_events(&args),
         "depth-render" => depth_ev::depth_render(&args),
         "hist-events" => hist_ev::hist_events(&args),
